@@ -7,7 +7,9 @@ CONSTANTS
   UseD = FALSE
   StartModes <- StartOK
   FixD5 = TRUE
-  FixD6 = TRUE
+  FixInit = TRUE
+  FixDetach = TRUE
+  FixUpdater = TRUE
   CfgOK <- CfgOne
 SPECIFICATION MCLive
 VIEW View
